@@ -527,11 +527,15 @@ class Array(Environment):
         before = None
         leftborder = None
 
-        tex.pushToken(Array)
+        # Mark the end of the colspec with a token of our own (not with a
+        # class: the tokenizer writes contextDepth, ownerDocument and
+        # parentNode onto every token it hands out)
+        end = Command()
+        tex.pushToken(end)
         tex.pushTokens(colspec)
 
         for tok in tex.itertokens():
-            if tok is Array:
+            if tok is end:
                 break
 
             if tok.isElementContentWhitespace:
